@@ -56,7 +56,7 @@ CHECKS["C08"] = (
 )
 CHECKS["C11"] = (
     "Coq invariants by induction over operation histories (fold_left, unbounded) on a model of Context.inputs/get_input/pop + history and program correspondence evaluated in Coq",
-    "Machine-checked for every well-scoped history: the j-th value served from the program's inputs (explicit reads at any depth + implicit reads at top level) is input j mod n on one shared cursor; with no inputs every read is 0; inside a call implicit reads cycle over that call's arguments and leave the top cursor untouched; a pop of k from j items performs k-j implicit reads.",
+    "Machine-checked for every well-scoped history: the j-th value served from the program's inputs (explicit reads at any depth + implicit reads at top level) is input j mod n on one shared cursor; with no inputs every read is 0; inside a call implicit reads cycle over that call's arguments and leave the top cursor untouched; a pop of k from j items performs k-j implicit reads. The same three statements are proved for the input functions of the C01 evaluators' state (C11_core_top / _empty / _inner over Model/Values.v), so the two models of get_input / pop agree on the property.",
     "Trusted: coqc kernel; stdin empty (reads return 0) is an assumption of the model; model = helpers.get_input/pop/templates is tested on exhaustive and random histories against the real Context and on programs through execute_vyxal, not proved.",
     "DESIGN.md 7/C11",
 )
